@@ -1,7 +1,7 @@
 ------------------------------ MODULE MC_DiffU ------------------------------
 (* Design-level check of the stream model on plain `diff -u` / `diff -ru` input (Env_DiffU). *)
 EXTENDS Naturals, Sequences, FiniteSets, TLC, Json
-CONSTANTS NF, MaxLen, MaxHunks, MaxOld, MaxNew, Titled, Ambig, Buf, Fixes, ReplayLen
+CONSTANTS NF, MaxLen, MaxHunks, MaxOld, MaxNew, Titled, Ambig, Buf, Fixes, ColorOnly, ReplayLen
 VARIABLES hist, gs, s
 E == INSTANCE Env_DiffU
 I == INSTANCE Impl_Stream
@@ -13,6 +13,7 @@ Spec == Init /\ [][Next]_vars
 Final == I!Finish(s).w
 Cex(name) == PrintT(<<"CEX", ToJson([inv |-> name, h |-> hist])>>) /\ FALSE
 RowsOnceInOrder == O!SameRowsOpt(O!Expected(hist), Final) \/ Cex("RowsOnceInOrder")
+LineForLine == ~ColorOnly \/ O!COLines(hist, Final) \/ Cex("LineForLine")
 LanguageByName == O!LanguageByName(hist, I!Finish(s).sy) \/ Cex("LanguageByName")
 Lag == O!LagOK(hist, s.w, Buf) \/ Cex("Lag")
 PrefixStable == O!IsPrefixOf(s.w, Final) \/ Cex("PrefixStable")
